@@ -90,6 +90,8 @@ def run(R):
            dict(name="backup", tree=box.Tree({b"f": ("f", A_, 0o644), b"p.diff": ("f", u, 0o644)}), argv=[b"-b", b"-i", b"p.diff"], backup=(b"f", b"f.orig")),
            dict(name="backup-suffix-two-files", tree=box.Tree({b"f": ("f", A_, 0o644), b"g": ("f", A_, 0o644), b"p.diff": ("f", u + emit.unified_text(gen.make_hunks(a, b, 2), b"g", b"g"), 0o644)}),
                 argv=[b"-b", b"-z", b".bak", b"-i", b"p.diff"], backup=(b"g", b"g.bak")),
+           dict(name="backup-delete-then-recreate", tree=box.Tree({b"f": ("f", A_, 0o644), b"p.diff": ("f", emit.unified_text(gen.make_hunks(a, [], 3), b"f", b"/dev/null", b"", b"")
+                + emit.unified_text(gen.make_hunks([], b, 3), b"/dev/null", b"f", b"", b""), 0o644)}), argv=[b"-b", b"-i", b"p.diff"], backup=(b"f", b"f.orig")),
            dict(name="git-rename-backup", tree=box.Tree({b"f": ("f", A_, 0o644), b"p.diff": ("f", ren, 0o644)}), argv=[b"-b", b"-p1", b"-i", b"p.diff"], rename=(b"f", b"g"))]
     jobs, meta = [], []
     for c in kcs:
@@ -98,6 +100,8 @@ def run(R):
         for call, j, args in r0.all_calls:
             jobs.append(dict(cut=R.cut, tree=c["tree"], argv=c["argv"], strace={"inject": f"{call}:signal=SIGKILL:when={j}"}))
             meta.append((c, f"{call}#{j}", r0))
+    for c in kcs:   # and the run that is not killed at all
+        jobs.append(dict(cut=R.cut, tree=c["tree"], argv=c["argv"])); meta.append((c, "never", None))
     res = drv.run_many(jobs)
     killed = 0
     for (c, k, r0), r in zip(meta, res):
